@@ -47,7 +47,9 @@ METHODS = {
 GENERIC = ['null', 'true', 'false', '0', '1', '-1', '5', '2016', '2017', '1e3', '2.5', '-0.0', '0.9999999', '1e999', '-1e999', 'NaN',
            'Infinity', '-Infinity', str(2 ** 70), str(-2 ** 70), '1' + '0' * 400, '4294967296', '18446744073709551616',
            '""', '"abc"', '"0"', '"12"', '" 7 "', '"1e3"', '"٣"', '"zz' + 'zz' * 31 + '"', '[]', '{}', '[[1]]', '{"a":1}', '[null]',
-           '"' + 'ab' * 50000 + '"', '"\\u0000"', '"\\ud800"', '"txid"', '"tx"', '"block_hash"', '"block_header"', '"merkle_root"', '"None"']
+           '"' + 'ab' * 50000 + '"', '"\\u0000"', '"\\ud800"', '"txid"', '"tx"', '"block_hash"', '"block_header"', '"merkle_root"', '"None"',
+           # 64 characters that bytes.fromhex() accepts but that are not 32 bytes: blanks, tabs, a few hex pairs padded with blanks
+           '"' + ' ' * 64 + '"', '"' + '\\t' * 64 + '"', '"f00f' + ' ' * 60 + '"', '"' + 'ab' * 11 + ' ' * 42 + '"', '"' + '\\n' * 32 + 'cd' * 16 + '"']
 
 
 def plausible(world, orc, rng):
@@ -57,6 +59,7 @@ def plausible(world, orc, rng):
     big = max(range(len(orc.chain)), key=lambda h: len(orc.chain[h].txs))
     vals = ['"%s"' % x for x in sh] + ['"%s"' % x for x in txs]
     vals += ['"%s"' % sh[0][:63], '"%s0"' % sh[0], '"%s"' % sh[0].upper(), '" %s"' % sh[0], '"%s"' % sh[0][:62], '"0x%s"' % sh[0][2:]]
+    vals += ['"%s%s"' % (sh[0][:32], ' ' * 32), '"%s %s"' % (sh[0][:32], sh[0][32:]), '"%s"' % (txs[0][:40] + ' ' * 24)]
     vals += ['"%s"' % txs[0][:63], '"%s"' % txs[0].upper(), '"%s"' % ('00' * 32), '"%s"' % ('ff' * 32)]
     vals += [str(h) for h in (0, 1, orc.height - 1, orc.height, orc.height + 1, big)] + [str(len(orc.chain[big].txs) - 1), str(len(orc.chain[big].txs))]
     vals += ['"%s"' % world.active()[3].txs[0].raw.hex(), '"00"', '"0"']
@@ -92,6 +95,10 @@ def valid_args(rng, method, world, orc):
     return table.get(method)
 
 
+NUMERIC_GRID = {'blockchain.block.header': {0: 'n', 1: 'cp'}, 'blockchain.block.headers': {0: 'n', 1: 'n', 2: 'cp'},
+                'blockchain.transaction.id_from_pos': {0: 'n', 1: 'n'}, 'blockchain.transaction.get_merkle': {1: 'n'},
+                'blockchain.transaction.get_tsc_merkle': {1: 'n'}}
+
 FEATURE_KEYS = (('pruning', 'null'), ('tcp_port', '50001'), ('ssl_port', 'null'), ('server_version', '"ElectrumX 1.20"'),
                 ('protocol_min', '"1.4"'), ('protocol_max', '"1.4.2"'), ('genesis_hash', '"%s"' % ('00' * 32)), ('hash_function', '"sha256"'))
 
@@ -115,6 +122,16 @@ def gen_features(rng, pool_generic, hosts=('8.8.8.8', '10.1.2.3', 'example.com',
 
 def gen_request(rng, method, names, pool_generic, pool_plausible, world=None, orc=None):
     r = rng.random()
+    if orc is not None and method in NUMERIC_GRID and rng.random() < 0.4:
+        # every numeric parameter at a boundary (in several spellings int() / the validators map to the same number),
+        # the others valid: the combinations a check of one argument relies on another argument for
+        H = orc.height
+        small = ['0', '0', '1', '-1', '0.0', 'false', 'true', '"0"', '-0.5', '2', str(H - 1), str(H), str(H + 1), '2016', '2017']
+        cps = ['0', '1', str(H // 2), str(H), str(H), str(H + 1), 'false', '"%d"' % H]
+        va = valid_args(rng, method, world, orc)
+        for i, kind in NUMERIC_GRID[method].items():
+            va[i] = rng.choice(cps if kind == 'cp' else small)
+        return '[' + ','.join(va) + ']'
     if method == 'server.add_peer' and rng.random() < 0.6:
         f = gen_features(rng, pool_generic)
         return '[' + f + ']' if rng.random() < 0.8 else '{"features":' + f + '}'
@@ -286,6 +303,27 @@ def child(case):
             else:
                 bump('result_replies')
                 bump(f'ok:{method}')
+                if method.startswith('blockchain.scripthash.') and method != 'blockchain.scripthash.unsubscribe':
+                    # a result is only due for an argument that decodes (as the server decodes hex) to exactly 32 bytes, and it
+                    # must then be the truth about that script hash
+                    try:
+                        pv = json.loads(params)
+                        arg = pv[0] if isinstance(pv, list) else pv.get('scripthash')
+                        dec = bytes.fromhex(arg) if isinstance(arg, str) else None
+                    except (ValueError, IndexError, KeyError, AttributeError, TypeError):
+                        dec = None
+                    if dec is None or len(dec) != 32:
+                        viol('scripthash/malformed-argument-answered', f'{method} returned a result for an argument that is not a 32-byte hex string', wit)
+                    else:
+                        hx_ = dec[::-1][:11]
+                        bump('scripthash_results_judged')
+                        res_ = reply['result']
+                        if method.endswith('get_balance') and res_ != {'confirmed': orc.balance(hx_), 'unconfirmed': mo.balance_delta(hx_)}:
+                            viol('scripthash/wrong-result', f'{method}: balance {res_} is not that of the script hash', wit)
+                        elif method.endswith('listunspent') and len(res_) != len(orc.utxos_of(hx_)) + len(mo.unconfirmed_utxos(hx_)) - len(mo.true_spends(hx_)):
+                            bump('listunspent_count_differs')
+                        elif method.endswith('get_history') and [x['tx_hash'] for x in res_ if 'fee' not in x] != [h_[::-1].hex() for h_, _ht in orc.history(hx_, None)]:
+                            viol('scripthash/wrong-result', f'{method}: confirmed history is not that of the script hash', wit)
             out['sigs'].append(digest((method, 'err' if 'error' in reply else 'ok', reply.get('error', {}).get('message', '')[:25] if 'error' in reply else '')))
             if len(witness.tr.out) != wit_msgs:
                 # the world is static: whatever another client is told must still be the truth
